@@ -60,6 +60,20 @@ CHECKS["C04"] = dict(
     note="Two genuine defects were found by this check and repaired (fix: commits 3a68536, 22a5ec5; see "
          "KNOWN_FINDINGS.json). Bounded: exhaustive single corruptions only in the small scope.")
 
+CHECKS["C03"] = dict(
+    category="model_checking", design_ref="DESIGN.md section 2 (C03)",
+    technique="exact optimum of every small instance by TLC reachability over all placements (PackSearch.tla); real "
+              "lower bounds checked by TLC against optimal witness packings; guillotine-constructed instances with "
+              "witness dissections",
+    text="PackSearch.tla places items at every position/orientation; the least bin count over its terminal states is the "
+         "optimum with rotation of each instance of the scope. Trace_LB demands for the three observables "
+         "(Instance.lower_bound_bins, BinCount.lower_bound, InstanceSpace.min_bins): ceil(area/bin area) <= lb <= "
+         "bins(witness) after establishing that the witness is feasible. Witnesses: TLC's optimal packings (exact), "
+         "random guillotine dissections of k bins with trims/drops/rotated declarations (optimum <= k by construction), "
+         "decoder outputs and arbitrary layouts.",
+    note="Only the property's inequalities are demanded (a different valid bound never alarms). Exact optimum only in "
+         "the scope (bins <= 3x3, <= 3 (4 thorough) items); beyond that upper bounds on the optimum by construction.")
+
 NOT_YET = {
 }
 
